@@ -491,3 +491,81 @@ Theorem C12_oracle_sound_partial_req : forall (A : Type) (ops : app_ops A) (p : 
   In r [R12_sweep_bound; R12_post_claim_scan_incomplete; R12_gap_wait_never_ends].
 Proof. exact c12_open_req. Qed.
 Print Assumptions C12_oracle_sound_partial_req.
+
+(* ORACLE SOUNDNESS, the sweep bound and the post-claim scan (Proofs/C12OracleSound.v).  On every transcript of the
+   MODEL - any API calls and polls, any times (increasing), busy flags and received bytes, applications that hand
+   data telegrams to the PHY - the executable rules R12_sweep_bound and R12_post_claim_scan_incomplete of
+   Model/FdlOracle.v are never reported.
+   R12_sweep_bound is the end-to-end, history-level form of C12_sweep_bound: the second monitor counts the token
+   visits of the station (token transmissions out of PassToken / AwaitStatusResponse / the token-use states), keeps
+   for every address the count at its last GAP request (or at the last restart: NS changed, claim token, back to
+   listening / offline) and demands at every visit that no address of the current GAP has gone without a request
+   for more than |GAP| + gap_wait_rotations + 2 visits.  The proof is a simulation: for every GAP address a,
+   (visits since the last request to a) + visits_until a (GAP state of the model) <= |GAP| + gap_wait_rotations + 2
+   (+ 1 while the GAP step of the current visit is still due), maintained poll by poll with the relation
+   C12Proofs.poll_sweep_rel (one GAP step per GAP request / per token of a visit, none otherwise) - for NS anywhere
+   in 0..127 (also at or above HSA) and for successors that change during a sweep (every change restarts the
+   window, from whatever GAP state the model is in).
+   R12_post_claim_scan_incomplete: the list of GAP addresses the monitor still expects from the post-claim scan is
+   always ahead of the model's GAP cursor, so it is empty (within the current GAP) when the scan ends. *)
+From PB Require Import C12OracleSound.
+
+Theorem C12_oracle_sound_sweep : forall (A : Type) (ops : app_ops A) (p : params),
+  apps_total A ops -> builder_valid p -> app_sends_data A ops ->
+  forall (apps : list A) (ins : list minput), ins_ok 0 ins ->
+  forall k r, In (k, r) (monitor p (length apps) (model_transcript A ops p apps ins)) -> r <> R12_sweep_bound.
+Proof. exact c12_oracle_sound_sweep. Qed.
+Print Assumptions C12_oracle_sound_sweep.
+
+Theorem C12_oracle_sound_claim_scan : forall (A : Type) (ops : app_ops A) (p : params),
+  apps_total A ops -> builder_valid p -> app_sends_data A ops ->
+  forall (apps : list A) (ins : list minput), ins_ok 0 ins ->
+  forall k r, In (k, r) (monitor p (length apps) (model_transcript A ops p apps ins)) ->
+  r <> R12_post_claim_scan_incomplete.
+Proof. exact c12_oracle_sound_claim_scan. Qed.
+Print Assumptions C12_oracle_sound_claim_scan.
+
+(* all safety rules of C12 together: for applications that transmit request telegrams the only rule of C12 that can
+   be reported on a model transcript is the liveness rule R12_gap_wait_never_ends *)
+Theorem C12_oracle_sound_safety : forall (A : Type) (ops : app_ops A) (p : params),
+  apps_total A ops -> builder_valid p -> app_sends_data A ops ->
+  forall (apps : list A) (ins : list minput), app_sends_requests A ops -> ins_ok 0 ins ->
+  forall k r, In (k, r) (monitor p (length apps) (model_transcript A ops p apps ins)) -> rule_prop r = PC12 ->
+  r = R12_gap_wait_never_ends.
+Proof. exact c12_oracle_sound_safety. Qed.
+Print Assumptions C12_oracle_sound_safety.
+
+(* the poll-by-poll relation behind the simulation, for ALL station states and inputs *)
+Theorem C12_poll_sweep_rel : forall (A : Type) (ops : app_ops A) (f : fdl) (now : Z) (pin : phy_in) (apps : list A)
+    (f' : fdl) (o : phy_out) (apps' : list A) (calls : list call),
+  poll ops f now pin apps = Ok (f', o, apps', calls) -> sw_rel f f' [] calls (tx o).
+Proof. exact poll_sweep_rel. Qed.
+Print Assumptions C12_poll_sweep_rel.
+
+(* ORACLE SOUNDNESS, the liveness rule (Proofs/C12OracleSound.v, part 3).  R12_gap_wait_never_ends - "while the bus
+   brings nothing new, a wait for a GAP reply (AwaitStatusResponse, the post-claim scan) ends at the first poll
+   later than one slot time after the last instant at which the station can have seen anything happen" - is
+   never reported on a transcript of the MODEL.  The proof tracks last_bus_activity and pending_bytes EXACTLY in the
+   waiting states (C12Proofs-style case analysis of poll: await_poll_exact; every entry into a waiting state is a
+   transmission that leaves pending_bytes >= the bytes in the buffer: entry_plb) and keeps the simulation LW:
+   last_bus_activity <= l_ref of the monitor, the predicted end of the last transmission <= last_bus_activity,
+   last_bus_activity is that end or not later than the previous poll, and pending_bytes = buffer length unless the
+   monitor's flag l_spur announces a spurious growth.  Under LW a poll that the monitor calls quiet, expired and
+   inactive is a poll in which the model looks at the buffer, sees no activity and finds the slot timer run out -
+   so it leaves the waiting state (or transmits the next request). *)
+Theorem C12_oracle_sound_gap_wait : forall (A : Type) (ops : app_ops A) (p : params),
+  apps_total A ops -> builder_valid p -> app_sends_data A ops ->
+  forall (apps : list A) (ins : list minput), ins_ok 0 ins ->
+  forall k r, In (k, r) (monitor p (length apps) (model_transcript A ops p apps ins)) ->
+  r <> R12_gap_wait_never_ends.
+Proof. exact c12_oracle_sound_gap_wait. Qed.
+Print Assumptions C12_oracle_sound_gap_wait.
+
+(* ORACLE SOUNDNESS OF C12, COMPLETE: for applications that transmit request telegrams NO rule of C12 is reported on
+   a transcript of the model (all eleven executable rules R12_* of Model/FdlOracle.v). *)
+Theorem C12_oracle_sound : forall (A : Type) (ops : app_ops A) (p : params),
+  apps_total A ops -> builder_valid p -> app_sends_data A ops ->
+  forall (apps : list A) (ins : list minput), app_sends_requests A ops -> ins_ok 0 ins ->
+  forall k r, In (k, r) (monitor p (length apps) (model_transcript A ops p apps ins)) -> rule_prop r <> PC12.
+Proof. exact c12_oracle_sound. Qed.
+Print Assumptions C12_oracle_sound.
